@@ -15,6 +15,8 @@ from concurrent.futures import ThreadPoolExecutor
 VERIF = os.path.dirname(os.path.dirname(os.path.abspath(__file__)))
 REPO = os.environ.get('TJ_REPO', '/repo')
 SPEC = os.path.join(VERIF, 'spec')
+# evidence goes to /verif/evidence; runs against a scratch tree (TJ_REPO) may redirect it so that committed evidence stays that of /repo
+EVID = os.environ.get('TJ_EVIDENCE', os.path.join(VERIF, 'evidence'))
 TLAJAR = '/opt/veriftools/tla/tla2tools.jar:/opt/veriftools/tla/CommunityModules-deps.jar'
 NCPU = int(os.environ.get('TJ_JOBS', str(os.cpu_count() or 4)))
 
@@ -479,6 +481,12 @@ class Check:
         self.violations.append((what, replay))
 
     def finish(self, rule, assumptions=(), exhaustive=False, extra=None):
+        if 'mode_level' in self.cov:
+            rule += ("; mode level: MC_Mode - TLC runs the mode machine of TJMode (one action per permutation call) with the real "
+                     "permutation and shows its verdict equals the functional specification and its call count the closed form; "
+                     "TV_Mode - every permutation call the real code makes (link-time --wrap seam) is the call the machine "
+                     "predicts (input state, rounds, key words, none missing or extra) under the real permutation and under "
+                     "adversarial stand-in answers (fixed points, all-zero / all-ones, repeated keystream words)")
         self.cov['rule'] = rule
         self.cov['distinct_nontrivial'] = len(self._distinct)
         self.cov['exhaustive'] = exhaustive
@@ -491,16 +499,16 @@ class Check:
                   violations=len(self.violations))
         if self.cov['states'] == 0:
             self.cov['states'] = 0
-        os.makedirs(os.path.join(VERIF, 'evidence'), exist_ok=True)
+        os.makedirs(os.path.join(EVID), exist_ok=True)
         if not self.replay:
-            with open(os.path.join(VERIF, 'evidence', f'{self.pid}.json'), 'w') as f:
+            with open(os.path.join(EVID, f'{self.pid}.json'), 'w') as f:
                 json.dump(ev, f, indent=1)
         for k in self.known_hit:
             print(f"KNOWN-FINDING: property={self.pid} {k.get('what', '')}", flush=True)
         if self.violations:
-            os.makedirs(os.path.join(VERIF, 'evidence', 'replay'), exist_ok=True)
+            os.makedirs(os.path.join(EVID, 'replay'), exist_ok=True)
             for n, (what, rep) in enumerate(self.violations[:5]):
-                path = os.path.join(VERIF, 'evidence', 'replay', f'{self.pid}-{n}.json')
+                path = os.path.join(EVID, 'replay', f'{self.pid}-{n}.json')
                 with open(path, 'w') as f:
                     json.dump(dict(property=self.pid, what=what, tier=self.tier, seed=self.seed, replay=rep), f, indent=1)
                 print(f"  violation: {what}", flush=True)
